@@ -63,7 +63,7 @@ PROPS = {
         "assumptions": SIM_ASSUME,
     },
     "C06": {
-        "stages": [sim(20, 360)],
+        "stages": [sim(20, 360), real(8, 150)],
         "rule": "random DAGs incl. injected ordering cycles (must be rejected with a real cycle listed, nothing of the cycle started) and validation-only cycles (must be accepted), generated manifests settled in phase 1, all -j/-k/pool combinations, systematic completion orders on small cases; hang = wait with nothing running / scheduler iterations without events beyond 4*steps+16 / panic; non-trivial = >= 3 steps with a step waiting for >= 2 producers, or a cyclic case",
         "must_observe": ["events", "cyclic_cases", "validation_cycle_cases"],
         "assumptions": SIM_ASSUME,
@@ -154,7 +154,7 @@ PROPS = {
         "assumptions": PURE_ASSUME,
     },
     "C20": {
-        "stages": [pure(15, 240), asan_pure(120), miri(60)],
+        "stages": [pure(15, 240), asan_pure(120), miri(60), real(14, 300), real(0, 180, tiers=("thorough",), n2="tsan")],
         "rule": "exhaustive: strings of <= 6 (quick) / 7 (thorough) characters over {a, e-acute, katakana BI, emoji} with 0/3/9 bytes of ASCII padding x columns 10..len+15 x seconds {0,2,3,99,100,999,1000,99999,10^6} through task_message, every max through truncate, all state-count vectors with total <= 12 through progress_bar(40); random long strings (combining marks, raw non-UTF-8 bytes through from_utf8_lossy), widths 10-300, large counts; oracle: no panic, result = prefix at a character boundary + ... + time note, at most max(cols, note+3) bytes, unchanged iff it fits, bar exactly 40 bytes; non-trivial = the naive cut position falls inside a multi-byte character",
         "must_observe": ["exhaustive_strings", "exhaustive_count_vectors", "random_inputs"],
         "assumptions": PURE_ASSUME + ["end-to-end pty runs are a separate black-box stage when present"],
